@@ -495,6 +495,50 @@ pub fn check_idx(c: &ArtEdit) -> Verdict {
     edit_class(Verdict::pass().nontrivial(true).class_if(collisions, "ref-consistent").class_if(lost, "entry-dropped").class_if(!lost, "all-genuine-served"), &c.edit)
 }
 
+/// A fault built to survive a *partial* comparison of the 32-bit guard: the packed offset
+/// of one update entry is replaced by the first value (deterministic search over the 30
+/// offset bits) whose reference guard agrees with the stored guard on the bits of `mask`
+/// but not on all 32.
+#[derive(Debug, Clone, Serialize, Deserialize)]
+pub struct CollideCase {
+    pub art: String,
+    pub slot: u16,
+    pub mask: u32,
+}
+
+fn collide_edit(slot_bytes: &[u8], slot: usize, mask: u32) -> Option<Edit> {
+    let stored = u32::from_le_bytes([slot_bytes[0], slot_bytes[1], slot_bytes[2], slot_bytes[3]]);
+    let packed = u32::from_be_bytes([slot_bytes[14], slot_bytes[15], slot_bytes[16], slot_bytes[17]]);
+    let mut b = [0u8; 24];
+    b.copy_from_slice(&slot_bytes[..24]);
+    for cand in 1u32..(1 << 30) {
+        let p = packed ^ cand;
+        b[14..18].copy_from_slice(&p.to_be_bytes());
+        let g = lookup3::hashlittle(&b[4..23], 0) | 0x8000_0000;
+        if g != stored && (g ^ stored) & mask == 0 {
+            return Some(Edit::Subst { pos: (slot * 23 + 14) as u32, bytes: p.to_be_bytes().to_vec() });
+        }
+    }
+    None
+}
+
+pub fn check_collide(c: &CollideCase) -> Verdict {
+    let a = match art::get(&c.art) {
+        Ok(a) => a,
+        Err(e) => return vacuous(&format!("{}: {e}", c.art)),
+    };
+    let (bytes, slots) = match &*a {
+        Art::Upd(a) => (&a.bytes, &a.slots),
+        Art::Idx(a) => (&a.bytes, &a.slots),
+        _ => return vacuous("not an update-section artifact"),
+    };
+    let Some(&o) = slots.get(c.slot as usize) else { return void() };
+    let Some(edit) = collide_edit(&bytes[o..o + 24], c.slot as usize, c.mask) else { return void() };
+    let ae = ArtEdit { art: c.art.clone(), edit };
+    let v = if matches!(&*a, Art::Upd(_)) { check_upd_section(&ae) } else { check_idx(&ae) };
+    v.class("partial-guard-collision")
+}
+
 // ------------------------------------------------------------ local header
 
 #[derive(Debug, Clone, Serialize, Deserialize)]
